@@ -1301,6 +1301,13 @@ class Engine:
         if ftxt.startswith(NOOP_CALL_PREFIXES) and not ftxt.startswith('print_'):
             self.assumptions_used.add('logging/print calls are no-ops; their argument expressions are not evaluated')
             return [(st, None)]
+        if isinstance(node.func, ast.Name) and node.func.id == 'implies' and self.pure and len(node.args) == 2 and not node.keywords:
+            # lazy in its consequent: `implies(len(xs) >= 1, xs[0]...)` must not evaluate xs[0] on a concretely empty xs
+            a = simp(self.truth(self.ev(node.args[0], st)[0][1]))
+            if a is False:
+                return [(st, True)]
+            b = self.truth(self.ev(node.args[1], st)[0][1])
+            return [(st, simp(b) if a is True else simp(b_implies(a, b)))]
         if isinstance(node.func, ast.Name) and node.func.id == 'old' and self.pure:
             oe, oh = self._old
             tmp = State()
